@@ -28,11 +28,12 @@ Definition DEF_MAXTXFRAME : N := 65536.
 Definition WS_INIT_FRAGSIZE : N := 1048576.   (* ws_init: ws->fragsize = 1 << 20 *)
 
 (* ---- masking ---- *)
-(* buf[i] ^= mask[i % 4], the index counted from [i] *)
+(* buf[i] ^= mask[i % 4], the index counted from [i]; the counter is kept
+   reduced modulo 4 (it is a unary number in the extracted code) *)
 Fixpoint mask_from (i : nat) (key : list byte) (l : list byte) : list byte :=
   match l with
   | [] => []
-  | b :: r => N.lxor b (nth (Nat.modulo i 4) key 0) :: mask_from (S i) key r
+  | b :: r => N.lxor b (nth (Nat.modulo i 4) key 0) :: mask_from (Nat.modulo (S i) 4) key r
   end.
 Definition mask_bytes (key l : list byte) : list byte := mask_from 0 key l.
 
